@@ -117,6 +117,12 @@ class C11(core.Check):
         # string reallocation and compaction
         c.append({'ops': [['lets', 'Q$', 'one'], ['lete', 'X$', [2], 'two'], ['lets', 'Q$', 'three'],
                           ['lets', 'Z$', 'four'], ['lets', 'Q$', 'x'], ['fre'], ['dump'], ['clear'], ['dump']]})
+        # SWAP whose second operand is an element of a not yet dimensioned string array, with too little memory
+        # for the implicit DIM: the collector runs inside SWAP and moves the first operand's text (seed C11e)
+        c.append({'ops': [['clearmem', 4720 + 514 + 115], ['lets', 'Q$', 'gggggggg'], ['lets', 'X$', 'AAAAA'],
+                          ['lets', 'Z$', 'xxxxxxxx'], ['lets', 'KV$', 'CCCCC'], ['lets', 'Q$', ''], ['lets', 'Z$', ''],
+                          ['dump'], ['swap', 'X$', [], 'QX$', [3]], ['dump'], ['peekv', 'QX$', [3], 0],
+                          ['peekv', 'KV$', [], 0], ['swap', 'QX$', [3], 'KV$', []], ['dump']]})
         # a computed empty string next to the lowest live string must stay empty through a collection (seed C11b)
         c.append({'ops': [['lets', 'Q$', 'abcdef'], ['lets', 'X$', ''], ['lete', 'Z$', [2], ''], ['fre'], ['dump'],
                           ['peekv', 'X$', [], 0], ['peekv', 'Z$', [2], 0], ['peekv', 'Q$', [], 0]]})
@@ -140,14 +146,58 @@ class C11(core.Check):
         rng = self.rng
         out = []
         hist = {'ops': 0}
-        for _ in range(n):
-            ops = self.hist_ops(rng)
+        for k in range(n):
+            ops = self.pressure_ops(rng) if k % 7 == 3 else self.hist_ops(rng)
             for o in ops:
                 hist[o[0]] = hist.get(o[0], 0) + 1
             hist['ops'] += len(ops)
             out.append({'ops': ops})
         self.histogram = hist
         return out
+
+    def pressure_ops(self, rng):
+        """A history in a few hundred bytes of memory (CLEAR ,n): implicit DIMs and new variables then run
+        the string collector INSIDE statements (SWAP, LET, VARPTR) or end in Out of memory."""
+        ops = [['clearmem', 4720 + 514 + rng.randint(95, 190)]]
+        strs = rng.sample(['Q$', 'X$', 'Z$', 'KV$', 'J$'], rng.randint(3, 4))
+        nums = rng.sample(['W%', 'K%'], rng.randint(0, 2))
+        sarr = rng.sample(['QX$', 'ZJ$'], rng.randint(1, 2))
+        narr = ['VW%']
+
+        def text():
+            return ''.join(rng.choice('abcxyz') for _ in range(rng.randint(3, 7)))
+        # all scalars exist before memory gets tight
+        for nm in strs:
+            ops.append(['lets', nm, text()])
+        for nm in nums:
+            ops.append(['lets', nm, rng.randint(-99, 99)])
+        # garbage above the live strings
+        for _ in range(rng.randint(1, 4)):
+            ops.append(['lets', rng.choice(strs), text() if rng.random() < 0.7 else ''])
+        ops.append(['dump'])
+        for _ in range(rng.randint(3, 7)):
+            r = rng.random()
+            if r < 0.4:
+                a, b = (rng.choice(strs), []), (rng.choice(sarr), [rng.choice([0, 1, 3, 10, 10, 11])])
+                if rng.random() < 0.3:
+                    a, b = b, a
+                ops.append(['swap', a[0], a[1], b[0], b[1]])
+            elif r < 0.5 and nums:
+                ops.append(['swap', rng.choice(nums), [], narr[0], [rng.randint(0, 10)]])
+            elif r < 0.6:
+                ops.append(['lete', narr[0], [rng.randint(0, 11)], rng.randint(-9, 9)])
+            elif r < 0.7:
+                ops.append(['varptr', rng.choice(sarr + narr), [rng.randint(0, 10)]])
+            elif r < 0.8:
+                ops.append(['peekv', rng.choice(strs), [], rng.randrange(3)])
+            elif r < 0.88:
+                ops.append(['erase', [rng.choice(sarr + narr)]])
+            elif r < 0.94:
+                ops.append(['lets', rng.choice(strs), text()])
+            else:
+                ops.append(['fre'])
+            ops.append(['dump'])
+        return ops
 
     def hist_ops(self, rng):
         scal = [self.rand_name(rng) for _ in range(rng.randint(2, 5))]
@@ -311,64 +361,53 @@ class C11(core.Check):
             elif canon(nm)[-1] == '$' and val != '':
                 last_str[0] = None      # the lowest string now belongs to an element: fall back
             return e
-        with core.time_limit(120):
+        pressure = False
+        try:
+          with core.time_limit(120):
             for op in case['ops']:
                 limit = m.strings.current
-                free = limit - m.var_current()
+                rec_vc = m.var_current()
                 rec = {'limit': limit, 'err': 0}
                 before_all = self._strings(m)
                 kind = op[0]
+                targets = set()
+                stringy = False
+                # ---- phase 1: the implementation
                 if kind == 'lets':
                     nm, val = op[1], op[2]
+                    targets.add(canon(nm))
+                    stringy = canon(nm)[-1] == '$'
                     rec['err'], _ = self.sess.run('%s=%s' % (nm, vexpr(nm, [], val)))
-                    rec['exp'] = 0
                     if not rec['err']:
                         rec['b'] = list(bytearray(m.scalars.view_buffer(canon(nm).encode('ascii'))))
-                    ref.put(canon(nm), [], val)
                 elif kind == 'lete':
                     nm, idx, val = op[1], op[2], op[3]
+                    targets.add(canon(nm))
+                    stringy = canon(nm)[-1] == '$'
                     rec['err'], _ = self.sess.run('%s%s=%s' % (nm, au.subs(idx), vexpr(nm, idx, val)))
-                    rec['exp'] = ref.arr.access(canon(nm), idx, free)
                     if not rec['err']:
                         rec['b'] = list(bytearray(m.arrays.view_buffer(canon(nm).encode('ascii'), list(idx))))
-                    if not rec['exp']:
-                        ref.put(canon(nm), idx, val)
                 elif kind == 'dim':
                     rec['err'], _ = self.sess.run('DIM ' + ','.join(nm + au.subs(d) for nm, d in op[1]))
-                    rec['exp'] = 0
-                    for nm, d in op[1]:
-                        rec['exp'] = ref.arr.dim(canon(nm), d, free)
-                        if rec['exp']:
-                            break
                 elif kind == 'erase':
                     rec['err'], _ = self.sess.run('ERASE ' + ','.join(op[1]))
-                    rec['exp'] = ref.arr.erase([canon(nm) for nm in op[1]])
                 elif kind == 'base':
                     rec['err'], _ = self.sess.run('OPTION BASE %d' % op[1])
-                    rec['exp'] = ref.arr.option_base(op[1])
                 elif kind == 'clear':
                     rec['err'], _ = self.sess.run('CLEAR')
-                    rec['exp'] = 0
                     last_str[0] = None
-                    ref = RefVars()
+                elif kind == 'clearmem':
+                    # CLEAR ,n : sets the memory size - the cheap way to work under memory pressure
+                    pressure = True
+                    rec['err'], _ = self.sess.run('CLEAR ,%d' % op[1])
+                    last_str[0] = None
                 elif kind == 'swap':
                     n1, i1, n2, i2 = op[1], op[2], op[3], op[4]
+                    targets.update([canon(n1), canon(n2)])
                     rec['err'], _ = self.sess.run('SWAP %s,%s' % (self.ref(n1, i1), self.ref(n2, i2)))
-                    c1, c2 = canon(n1), canon(n2)
-                    if c1[-1] != c2[-1]:
-                        rec['exp'] = 13
-                    else:
-                        rec['exp'] = ref.place(c1, i1, free, False)
-                        if not rec['exp']:
-                            rec['exp'] = ref.place(c2, i2, limit - m.var_current(), True)
-                        if not rec['exp']:
-                            a, b = ref.get(c1, i1), ref.get(c2, i2)
-                            ref.put(c1, i1, b)
-                            ref.put(c2, i2, a)
                 elif kind in ('varptr', 'varptrs', 'peekv'):
                     nm, idx = op[1], op[2]
                     c = canon(nm)
-                    rec['exp'] = (0 if c in ref.scalars else 5) if not idx else ref.arr.access(c, idx, free)
                     if kind == 'varptrs':
                         rec['err'], v = self.sess.value('VARPTR$(%s)' % self.ref(nm, idx))
                         if not rec['err']:
@@ -384,18 +423,26 @@ class C11(core.Check):
                         rec['true_ptr'] = m.varptr(c.encode('ascii'), list(idx))
                 elif kind == 'fre':
                     rec['err'], _ = self.sess.run('LOCATE 1,1:PRINT FRE("")')
-                    rec['exp'] = 0
                 elif kind == 'dump':
-                    rec['exp'] = 0
+                    pass
                 else:
                     raise ValueError(kind)
-                if kind == 'fre' or rec['err'] == 7:
-                    # a collection ran (FRE, or check_free before Out of memory): descriptors were relocated
-                    before = before_all
-                    after = self._strings(m)
+                # ---- phase 2: did a string collection run inside the statement?  (a descriptor of a string
+                # cell the statement does not assign changed, FRE, or check_free before Out of memory)
+                after = self._strings(m)
+                moved = any(k in after and after[k] != v and k[0].decode('ascii') not in targets
+                            for k, v in before_all.items())
+                gc = moved or kind == 'fre' or rec['err'] == 7 or (not stringy and m.strings.current > limit)
+                if gc and not stringy:
+                    # `limit` of the model = strings.current after the collection (the statement allocates no string)
+                    limit = m.strings.current
+                    rec['limit'] = limit
+                free = limit - (m.var_current() if kind not in ('lets', 'lete', 'swap', 'clear', 'clearmem') else
+                                rec_vc)
+                if gc:
                     rec['resync'] = []
                     for (n, i), v in after.items():
-                        if before.get((n, i)) == v:
+                        if before_all.get((n, i)) == v:
                             continue
                         tup = None
                         if i is not None:
@@ -406,10 +453,52 @@ class C11(core.Check):
                                 k //= d + 1 - b
                         rec['resync'].append((n.decode('ascii'), tup, v))
                     rec['limit2'] = m.strings.current
+                # ---- phase 3: the reference
+                if kind == 'lets':
+                    rec['exp'] = 0
+                    ref.put(canon(op[1]), [], op[2])
+                elif kind == 'lete':
+                    rec['exp'] = ref.arr.access(canon(op[1]), op[2], free)
+                    if not rec['exp']:
+                        ref.put(canon(op[1]), op[2], op[3])
+                elif kind == 'dim':
+                    rec['exp'] = 0
+                    for nm, d in op[1]:
+                        rec['exp'] = ref.arr.dim(canon(nm), d, free)
+                        if rec['exp']:
+                            break
+                elif kind == 'erase':
+                    rec['exp'] = ref.arr.erase([canon(nm) for nm in op[1]])
+                elif kind == 'base':
+                    rec['exp'] = ref.arr.option_base(op[1])
+                elif kind in ('clear', 'clearmem'):
+                    rec['exp'] = 0
+                    ref = RefVars()
+                elif kind == 'swap':
+                    n1, i1, n2, i2 = op[1], op[2], op[3], op[4]
+                    c1, c2 = canon(n1), canon(n2)
+                    if c1[-1] != c2[-1]:
+                        rec['exp'] = 13
+                    else:
+                        rec['exp'] = ref.place(c1, i1, free, False)
+                        if not rec['exp']:
+                            rec['exp'] = ref.place(c2, i2, limit - m.var_current(), True)
+                        if not rec['exp']:
+                            a, b = ref.get(c1, i1), ref.get(c2, i2)
+                            ref.put(c1, i1, b)
+                            ref.put(c2, i2, a)
+                elif kind in ('varptr', 'varptrs', 'peekv'):
+                    c = canon(op[1])
+                    rec['exp'] = (0 if c in ref.scalars else 5) if not op[2] else ref.arr.access(c, op[2], free)
+                else:
+                    rec['exp'] = 0
                 rec['snap'] = self._snapshot(s)
                 rec['cells'] = self._cellinfo(s, ref)
                 rec['ref'] = {k: ref.get(k[0], list(k[1])) for k in ref.cells()}
                 tr.append(rec)
+        finally:
+            if pressure:
+                self.sess.drop()        # NEW does not restore the memory size
         return tr
 
     def impl(self, case):
@@ -467,7 +556,7 @@ class C11(core.Check):
                 terms.append('VErase [%s]' % ';'.join(au.cname(canon(nm)) for nm in op[1]))
             elif kind == 'base':
                 terms.append('VBase %d' % op[1])
-            elif kind == 'clear':
+            elif kind in ('clear', 'clearmem'):
                 terms.append('VClear')
             elif kind == 'swap':
                 terms.append('VSwap %s %s %s %s %s' % (lim, au.cname(canon(op[1])), au.czl(op[2]),
